@@ -32,8 +32,49 @@ def run(ctx):
     jobs = boolfam.run_jobs(ctx, jobs_for(ctx))
     boolfam.tally(ctx, jobs)
     boolfam.validate(ctx, jobs)
+    vatti(ctx)
     ctx.trusted.append("affine embedding invariance of winding numbers (harness maps sample points with the same map)")
     return core.finish(ctx, "model_checking", RULE, confirm=boolfam.confirm("C01"))
+
+def vatti(ctx):
+    """Layer 2 binding: AEL snapshots of hook H1 validated against VattiTrace.tla (V1-V5).  A failure is an engine-level
+    divergence: it is recorded and ESCALATED to a targeted observable search on that input (DESIGN.md 3.6), never a verdict."""
+    import json, os
+    exe = core.build("plain", ("vatti",))
+    vj = [{"seed": ctx.seed * 1000 + 700 + k, "n": 30 if ctx.quick else 150, "R": [32, 48, 64][k % 3], "maxpaths": 2 + k % 2, "out": ctx.path("vatti_%02d.ndjson" % k)} for k in range(8 if ctx.quick else 16)]
+    def one(j):
+        cmd = [exe, "vatti"]
+        for k, v in j.items():
+            cmd += ["--" + k, str(v)]
+        p = core.sh(cmd, timeout=1200)
+        if p.returncode != 0:
+            raise core.ModelFailure("harness vatti failed: " + p.stderr.decode(errors="replace")[-1000:])
+    core.run_parallel(one, vj)
+    res = core.validate_traces("VattiTrace", "VattiTrace.cfg", [j["out"] for j in vj])
+    snaps = 0; div = []; cases = []
+    for f, r in res:
+        ctx.add_tlc(r); lines = None
+        snaps += sum(1 for ln in open(f) if ln.startswith('{"e":"Ael"'))
+        for fl in r.fails:
+            lines = lines or core.read_lines(f)
+            if fl["prop"] == "ANY":
+                core.fail_rec(ctx, lines, fl, {"harness": {"variant": "plain", "args": {"cfg": "full", "npts": 200, "seed": ctx.seed}}})
+                continue
+            i = fl["line"] - 1
+            while i > 0 and not lines[i].startswith('{"e":"VCase"'):
+                i -= 1
+            c = json.loads(lines[i]); div.append({"clause": fl["clause"], "detail": fl["detail"], "subj": c["subj"], "clip": c["clip"]})
+            cases.append(json.dumps({"subj": c["subj"], "clip": c["clip"]}))
+    ctx.extra["ael_snapshots_validated"] = snaps
+    ctx.extra["engine_divergences"] = {"count": len(div), "clauses": sorted({d["clause"] for d in div}), "sample": div[:2]}
+    if cases:
+        core.log("[C01] %d engine-level divergence(s) (%s): escalating to the observable checks on those inputs" % (len(div), ", ".join(sorted({d["clause"] for d in div}))))
+        inf = ctx.path("escalate.ndjson")
+        with open(inf, "w") as fh:
+            fh.write("\n".join(sorted(set(cases))[:60]) + "\n")
+        ej = [boolfam.harness_job(ctx, 900 + i, v, {"fam": "in", "in": inf, "n": 0, "skip": 0, "stride": 1, "emb": e, "cfg": "full", "npts": 400, "reunion": 0, "seed": ctx.seed})
+              for i, (v, e) in enumerate((("plain", "0"), ("hi", "0"), ("plain", "2,3")))]
+        ej = boolfam.run_jobs(ctx, ej); boolfam.tally(ctx, ej); boolfam.validate(ctx, ej)
 
 def replay(path, seed):
     return boolfam.replay_file(path, "C01")
